@@ -21,6 +21,16 @@ import (
 func noPanicHistory(c *vc.Case, h *History, o OptSet, mustRefuse map[int]bool, checkRT bool) {
 	s := NewStream(o)
 	defer s.Close()
+	defer func() {
+		// dictionary state machine transitions this history drove (coverage, from the producer's observer)
+		c.Count("dictionary_resets", s.Obs.Get("reset"))
+		c.Count("dictionary_overflows", s.Obs.Get("overflow"))
+		for k, v := range s.Obs.Counts {
+			if strings.HasPrefix(k, "upgrade_") {
+				c.Count("dictionary_upgrades", v)
+			}
+		}
+	}()
 	for k, b := range h.Batches {
 		var want *canon.Set
 		if checkRT && mustRefuse[k] {
@@ -183,8 +193,8 @@ func TestC08(t *testing.T) {
 		Rule:        "case = one producer history over domain D-any (everything pdata can hold: invalid UTF-8, timestamps up to 2^64-1, out-of-range enums, all-zero / empty lists, empty metrics, zero offsets), single or mixed signals, random producer options; plus the oversize family (65,536 / 65,600 / 131,073 attribute-bearing spans, log records, metrics, resources, scopes, event- and link-bearing spans) placed first, in the middle and followed by valid batches. Oracle: recover() around every producer call and child-process death => violation; an oversize input must be refused with an error, and if it is accepted instead it must decode to the same telemetry. Non-trivial = history that triggered >=1 schema update or contains a degenerate/oversize batch. Distinct = (script, signals, options, #schema updates bucket).",
 		Assumptions: []string{"process-fatal events are attributed through the per-case journal", "sampled inputs"},
 		Gates: map[string]map[string]int{
-			"quick":    {"producer_calls": 3000, "refused": 8},
-			"thorough": {"producer_calls": 60000, "refused": 40},
+			"quick":    {"producer_calls": 3000, "refused": 8, "dictionary_resets": 20, "dictionary_overflows": 20, "dictionary_upgrades": 20},
+			"thorough": {"producer_calls": 60000, "refused": 40, "dictionary_resets": 200, "dictionary_overflows": 200, "dictionary_upgrades": 200},
 		},
 		Excluded: carveNames,
 	})
@@ -222,6 +232,26 @@ func TestC08(t *testing.T) {
 		noPanicHistory(c, h, DefaultOpts(), nil, false)
 		c.FP(h.Script, sig.String(), fmt.Sprint(n))
 		c.Nontrivial(true)
+	})
+	// "whichever values repeat, and whatever the stream carried before": cardinality ramps drive every
+	// dictionary through upgrade, overflow and reset (ratio below / above the reset threshold)
+	r.Layer("dict-ramp", e.Pick(60, 600), func(c *vc.Case) {
+		sig := canon.Signal(c.Idx % 3)
+		high := (c.Idx/3)%2 == 0
+		o := DefaultOpts()
+		o.Limit = []string{"8", "8", "16", "32"}[c.R.IntN(4)]
+		o.Reset = []float64{0, 0.05, 0.3, 1, 10, -1}[(c.Idx/6)%6]
+		o.Zstd = c.R.IntN(2)
+		if sig == canon.Traces {
+			o.SpanOrder, o.A16, o.A32 = c.R.IntN(8)-1, c.R.IntN(5)-1, c.R.IntN(6)-1
+		}
+		h := RampHistory(c.R, sig, e.Pick(8, 16)+c.R.IntN(6), 100+c.R.IntN(250), high)
+		noPanicHistory(c, h, o, nil, false)
+		c.FP(h.Script, sig.String(), o.String())
+		c.Nontrivial(true)
+		if c.Idx < 12 {
+			c.Sample(map[string]any{"script": h.Script, "signal": sig.String(), "options": o.String(), "batches": h.Len()})
+		}
 	})
 	// oversize family: kind x size x placement
 	sizes := []int{65536, 65600, 131073}
